@@ -15,8 +15,12 @@ for d in sorted(glob.glob(os.path.join(VERIF, "seeded", "*"))):
         verdicts.append("%s %s" % (p, w[1] if len(w) > 1 else "?"))
     summ = re.sub(r"\s+", " ", str(m.get("summary", "")))[:170]
     need = re.sub(r"\s+", " ", str(m.get("needs_to_manifest", "")))[:150]
-    rows.append("| %s | %s | %s | %s |" % (os.path.basename(d), summ.replace("|", "/"), need.replace("|", "/"), ", ".join(verdicts)))
-table = "| seeded/ | change | needs | quick-tier verdict |\n|---|---|---|---|\n" + "\n".join(rows) + "\n"
+    first = m.get("first_verdict", {})
+    was = ", ".join("%s %s" % (p, v) for p, v in sorted(first.items()) if v and v != "KILLED" and v != "?")
+    note = m.get("verdict_note", "")
+    last = ", ".join(verdicts) + ((" (at first: %s)" % was) if was else "") + ((" - " + note) if note else "")
+    rows.append("| %s | %s | %s | %s |" % (os.path.basename(d), summ.replace("|", "/"), need.replace("|", "/"), last))
+table = "| seeded/ | change | needs | quick-tier verdict now |\n|---|---|---|---|\n" + "\n".join(rows) + "\n"
 p = os.path.join(VERIF, "DESIGN.md")
 s = open(p).read()
 a, b = "<!-- SEEDED-BEGIN -->\n", "<!-- SEEDED-END -->"
